@@ -12,11 +12,18 @@ SHARD = 4
 FORM = (SR.FORM_TEXT % 'integrate_local_singlesite / integrate_local_twosite') + \
        '; the recorded solver-call sequence is additionally required (inside Coq) to equal numsteps copies of sched1 L / sched2 L and its own reverse'
 TRUSTED = SR.TRUSTED
-PARTIAL = ('proved (Properties/C09.v): the scheduling / symmetry core only -- for all L and numsteps the solver calls emitted by the model are numsteps copies of '
+PARTIAL = ('proved (Properties/C09.v, all closed under the global context): (1) the scheduling / symmetry core -- for all L and numsteps the solver calls emitted by the model are numsteps copies of '
            'K0(1/2) S0(-1/2) ... K_{L-1}(1) ... S0(-1/2) K0(1/2) (two-site analogue), this list is its own reverse, the times passed for -dt are the negated '
-           'times, and adjacent opposite local flows cancel for exactly invertible local solvers. NOT proved: exactness on a complete manifold (a statement '
-           'about the matrix exponential, of which the model has no definition) and reversibility at the level of the dense state (needs gauge covariance of '
-           'the local flows under the QR gauges); both are only searched by prop() against scipy.linalg.expm')
+           'times, and adjacent opposite local flows cancel for exactly invertible local solvers; (2) REVERSIBILITY AT THE LEVEL OF THE DENSE STATE (C09_reversible, every L >= 1, '
+           'every number of steps, every bond profile, any scalar dt): n single-site steps with dt followed by n steps with -dt on the in-place result give <w|psi0_normalised> = nrm2 * <w|psi2> '
+           'for every basis word w, nrm2 = the number returned by the second call -- RELATIVE TO explicit contracts: (a) the local solvers are exact flows in the time argument '
+           '(solver(0) = id, solver(t) o solver(s) = solver(s+t)), homogeneous and shape preserving; (b) they are covariant under unitary changes of the bond bases of the local problem '
+           '(proved for the four local functions of operation.py themselves: C09_local_problem_gauge_covariant); (c) per recorded call every QR answer meets the LAPACK contract with an invertible R '
+           'factor and every evolved bond matrix of the first run is invertible (full rank, bond dimensions unchanged) -- that QR non-uniqueness then only changes the gauge is proved '
+           '(C09_qr_gauge_unique); (d) the second call\'s orthonormalize only re-gauges its (right-canonical) input by unitaries and divides the first tensor by the reported norm. '
+           'L = 1 needs contract (a) only (C09_reversible_L1). Non-vacuity: rational L = 2 instance with a non-trivial unipotent flow (C09_reversible_nonvacuous). '
+           'NOT proved: exactness on a complete manifold (a statement about the matrix exponential, of which the model has no definition); that the floating-point Krylov exponential meets '
+           'contracts (a), (b) (it does up to the Krylov error; measured by prop() against scipy.linalg.expm); reversibility when a bond matrix is rank deficient; contract (d) from the QR contract of orthonormalize')
 ASSUMPTIONS = SR.ASSUMPTIONS
 RULE = ('exactness: complete manifolds (maximal bond dimensions of a charge sector, or no charges), L in 1..5, d in 2..3, Krylov dimension >= '
         'local dimension, real / imaginary / complex dt with |dt|*||H|| <= ~1, 1..3 steps, both integrators, against scipy.linalg.expm; '
